@@ -285,6 +285,47 @@ func ruleC03(c *Ctx) {
 		}
 		c.Require("fieldinit", "bc."+cn+" stores every parameter into the entry", len(dropped) == 0, "parameters not stored: %v", dropped)
 	}
+	// (b') the asset id of an issuance commits to its program, its vm version and its definition
+	if ca := c.Func(pTypes, "(*IssuanceInput).calcAssetID"); ca != nil {
+		miss := []string{}
+		// sinks: whatever is handed to ComputeAssetID (function or method), or stored into an AssetDefinition / its Program
+		var sinks []ssa.Value
+		for _, s := range allCalls(ca, false) {
+			if k := calleeKey(s); k == "protocol/bc.ComputeAssetID" || k == "(*protocol/bc.AssetDefinition).ComputeAssetID" {
+				sinks = append(sinks, s.Common().Args...)
+			}
+		}
+		for _, b := range ca.Blocks {
+			for _, in := range b.Instrs {
+				if st, ok := in.(*ssa.Store); ok {
+					if ty, _, isF := fieldOf(st.Addr); isF && (ty == "protocol/bc.AssetDefinition" || ty == "protocol/bc.Program") {
+						sinks = append(sinks, st.Val)
+					}
+				}
+			}
+		}
+		for _, need := range []struct {
+			what string
+			pred func(ssa.Value) bool
+		}{
+			{"IssuanceProgram", readsField("protocol/bc/types.IssuanceInput", "IssuanceProgram")},
+			{"VMVersion", readsField("protocol/bc/types.IssuanceInput", "VMVersion")},
+			{"AssetDefinition (hash)", func(v ssa.Value) bool {
+				return callsKey("(*protocol/bc/types.IssuanceInput).AssetDefinitionHash")(v) || readsField("protocol/bc/types.IssuanceInput", "AssetDefinition")(v)
+			}},
+		} {
+			found := false
+			for _, s := range sinks {
+				if mentions(s, need.pred, 7, nil) {
+					found = true
+				}
+			}
+			if !found {
+				miss = append(miss, need.what)
+			}
+		}
+		c.Require("fieldflow", fname(ca)+": the asset id is computed from the issuance program, vm version and definition hash", len(sinks) > 0 && len(miss) == 0, "not reaching the asset definition: %v", miss)
+	}
 	// (c) wire field → hashed content
 	type req struct {
 		fn     string
